@@ -2,7 +2,10 @@
 """Regenerates MANIFEST.json from tools/claims.json (one entry per claimed property)."""
 import json, os
 V = os.path.dirname(os.path.dirname(os.path.abspath(__file__)))
-claims = json.load(open(os.path.join(V, "tools", "claims.json")))
+claims = {}
+for f in sorted(os.listdir(os.path.join(V, "tools", "claims"))):
+    if f.endswith(".json"):
+        claims[f[:-5]] = json.load(open(os.path.join(V, "tools", "claims", f)))
 props = [json.loads(l)["id"] for l in open(os.path.join(V, "properties.jsonl"))]
 checks, na = [], []
 for pid in props:
